@@ -11,7 +11,7 @@ import ast
 import re
 
 from sa import sigdata
-from sa.interp import Interp, Scenario, Sym, Const, Enum, render
+from sa.interp import Interp, Scenario, Sym, Const, Enum, render, alpha
 from sa.loader import AnalysisError, dotted
 from sa import verdict
 from sa import families
@@ -28,6 +28,7 @@ def run(rep, prog, tier):
     rep.rule('C01.5', 'version, signature type and both algorithm ids reach the trailer as received: parse order, injective setters, plain getters', floor=12)
     rep.rule('C01.6', 'the hashed subpacket area that is hashed is the received one, also on copies (the C05 capture / replay / copy rules)', floor=30)
     rep.rule('C01.7', 'what verify hands to hashdata for a message is an injective function of the received octets (no lossy decode / encode / normalisation)', floor=12)
+    rep.rule('C01.8', 'the user-attribute hashdata covers every received attribute subpacket: parse files each one, the serialiser emits each one', floor=4)
     rep.assume('PGPKey.hashdata / PGPUID.hashdata are non-empty for a key / user id that exists (axiom len(...) > 0)')
     rep.assume('cryptography.*.verify raises InvalidSignature on a bad signature and returns None otherwise (trusted base)')
 
@@ -39,9 +40,11 @@ def run(rep, prog, tier):
     verdict.check_crypto_arm_verdict(rep, prog, 'C01.2')
     verdict.check_mask_contains(rep, prog, 'C01.4', ['WrongSig'])
     check_header_fields(rep, prog)
+    verdict.check_one_record(rep, prog, 'C01.2')       # no path through the loop skips a collected pair (it records, delegates or raises)
     verdict.check_partition(rep, prog, 'C01.4')        # the same evaluation C17.2 makes: truthy exactly when no record is bad
     check_hashed_area(rep, prog)
     check_signed_data_path(rep, prog)
+    check_user_attribute_path(rep, prog)
 
 
 # ------------------------------------------------------------------------------------------------ C01.2
@@ -463,6 +466,52 @@ def check_rooted_value(rep, construct, fi, s, root, value_text, scen):
         raise AnalysisError('%s: transformation of the signed data not classified: %s' % (construct, unknown[:2]))
 
 
+def codec_choices(prog, g, name, extra):
+    """Value assignments of the optional parameters of a text helper: the declared defaults, and each combination a call site in
+    the package passes (literals after canonicalisation; anything else cannot be decided)."""
+    if not extra:
+        return [{}]
+    a = g.node.args
+    names = [x.arg for x in a.args]
+    dflt = dict(zip(names[len(names) - len(a.defaults):], a.defaults))
+    dflt.update({x.arg: d for x, d in zip(a.kwonlyargs, a.kw_defaults) if d is not None})
+    base = {}
+    for k in extra:
+        if k not in dflt:
+            raise AnalysisError('PGPObject.%s: parameter %s has no default' % (name, k))
+        try:
+            base[k] = Const(ast.literal_eval(dflt[k]))
+        except Exception:
+            raise AnalysisError('PGPObject.%s: default of %s is not a literal' % (name, k))
+    out = [base]
+    is_static = any(dotted(d) == 'staticmethod' for d in g.node.decorator_list)
+    first_extra = names.index(extra[0]) - (0 if is_static else 1) if extra[0] in names else None
+    for fn in prog.all_functions():
+        for n in ast.walk(fn.node):
+            if isinstance(n, ast.Call) and isinstance(n.func, ast.Attribute) and n.func.attr == name:
+                given = dict(base)
+                passed = False
+                for i, v in enumerate(n.args):
+                    if first_extra is not None and i >= first_extra and i - first_extra < len(extra):
+                        given[extra[i - first_extra]] = v
+                        passed = True
+                for kw in n.keywords:
+                    if kw.arg in extra:
+                        given[kw.arg] = kw.value
+                        passed = True
+                if not passed:
+                    continue
+                for k, v in list(given.items()):
+                    if isinstance(v, ast.AST):
+                        try:
+                            given[k] = Const(ast.literal_eval(v))
+                        except Exception:
+                            raise AnalysisError('%s: %s(...) is called with a %s that is not a literal (%s)' % (fn.qualname, name, k, ast.unparse(v)))
+                if not any(all(render(given[k]) == render(o[k]) for k in extra) for o in out):
+                    out.append(given)
+    return out
+
+
 def check_signed_data_path(rep, prog):
     """LiteralData octets -> contents -> PGPMessage.message -> _signed_data -> the pair PGPKey.verify examines -> hashdata."""
     noinl = lambda f: False  # noqa: E731
@@ -518,11 +567,21 @@ def check_signed_data_path(rep, prog):
         if g is None:
             continue
         rep.saw(fn=g)
-        arg = g.params[-1]
+        is_static = any(dotted(d) == 'staticmethod' for d in g.node.decorator_list)
+        pos = [a.arg for a in g.node.args.args][0 if is_static else 1:]
+        if not pos:
+            raise AnalysisError('PGPObject.%s takes no text' % name)
+        arg = pos[0]                                     # the text, by position; further parameters (codec) in every value they take:
+        extra = pos[1:] + [a.arg for a in g.node.args.kwonlyargs]
+        choices = codec_choices(prog, g, name, extra)    # their declared default and whatever a call site passes
         for typ in ('bytes', 'str'):
-            for s in Interp(prog, Scenario(args={arg: Sym('<text>', types={typ}, nonnull=True)}, inline=noinl)).run(g):
-                if s.raised is None:
-                    check_rooted_value(rep, 'PGPObject.%s' % name, g, s, '<text>', render(s.ret) if s.ret is not None else None, '%s argument' % typ)
+            for given in choices:
+                args = {arg: Sym('<text>', types={typ}, nonnull=True)}
+                args.update(given)
+                scen = '%s argument%s' % (typ, ''.join(', %s=%s' % (k, render(v)) for k, v in sorted(given.items())))
+                for s in Interp(prog, Scenario(args=args, inline=noinl)).run(g):
+                    if s.raised is None:
+                        check_rooted_value(rep, 'PGPObject.%s' % name, g, s, '<text>', render(s.ret) if s.ret is not None else None, scen)
     # PGPKey.verify examines the message's signed data, unchanged
     fi, outs, _ = verdict.run_verify(prog, F=False, V=False, subject_type='PGPMessage')
     subj = fi.params[1]
@@ -560,3 +619,65 @@ def check_signed_data_path(rep, prog):
                   'a text subject must be encoded one-to-one before hashing', where=hd.where, found=lossy, scenario='str subject')
     if n == 0:
         raise AnalysisError('PGPSignature.hashdata: no returning path for a text subject')
+
+
+# ------------------------------------------------------------------------------------------------ C01.8
+def check_user_attribute_path(rep, prog):
+    """PGPUID.hashdata of a user attribute is the serialisation of its subpacket set (C01.1b).  For that to be an image of the
+    received body nothing may be filtered on the way in or out: UserAttributeSubPackets.parse files the subpacket it has read on
+    EVERY returning path (whatever class the dispatcher made of it: the type tests are explored both ways), the item store puts
+    it into the container the serialiser walks, and the serialiser emits every element of that container."""
+    noinl = lambda f: False  # noqa: E731
+    ci = prog.cls('pgpy.packet.fields', 'UserAttributeSubPackets')
+    pf = ci.find_method('parse')
+    ba = ci.find_method('__bytearray__')
+    si = ci.find_method('__setitem__')
+    if pf is None or ba is None or si is None or len(pf.params) != 2:
+        raise AnalysisError('UserAttributeSubPackets parse / __bytearray__ / __setitem__ vanished')
+    rep.saw(fn=pf)
+    me = pf.params[0]
+    n = 0
+    for answer in (False, True):
+        sc = Scenario(args={pf.params[1]: Sym('<pkt>', nonnull=True)}, inline=noinl, forward_stores=False,
+                      oracle=lambda t, _a=answer: _a if t.startswith('isinstance(') else None)
+        for s in Interp(prog, sc).run(pf):
+            if s.raised is not None:
+                continue
+            n += 1
+            read = [c for c in s.calls if c[1] == ['<pkt>'] and not c[2] and c[0] not in ('len', 'bytearray', 'bytes', 'isinstance', 'memoryview')]
+            texts = set('%s(<pkt>)' % c[0] for c in read)
+            # the value filed: its construction text when it is an object the interpreter made (locals are named after their target)
+            filed = [getattr(val, 'text', None) or v for p_, v, l, val in s.stores if p_.startswith(me + '[')]
+            filed += [c[1][-1] for c in s.calls if c[0] in (me + '.__setitem__',) and c[1]]
+            ok = len(read) == 1 and len(filed) == 1 and filed[0] in texts
+            rep.check(ok, 'C01.8', 'UserAttributeSubPackets.parse', 'subpacket read %s, filed %s' % (sorted(texts), filed),
+                      'every attribute subpacket that is read must be kept (whatever its type): a subpacket that is dropped leaves '
+                      'the hashed data, so a user attribute with forged or added octets there verifies alike', where=pf.where,
+                      expected='self[<name>] = <the subpacket read from the packet> on every returning path', found=filed,
+                      scenario='type tests answered %s; decisions %s' % (answer, [x[0] for x in s.facts]))
+    if n == 0:
+        raise AnalysisError('UserAttributeSubPackets.parse has no returning path')
+    # the serialiser walks one container without a filter ...
+    rep.saw(fn=ba)
+    coll = None
+    for s in Interp(prog, Scenario(inline=noinl)).run(ba):
+        if s.raised is not None:
+            continue
+        t = alpha(render(s.ret)) if s.ret is not None else 'None'
+        m = re.match(r'^EACH\(\$1 in %s\.([A-Za-z_]\w*)\.values\(\);\$1\.__bytearray__\(\)\)$' % re.escape(ba.params[0]), t)
+        rep.check(m is not None, 'C01.8', 'UserAttributeSubPackets.__bytearray__', 'returns %s' % t,
+                  'the serialisation that is hashed must consist of every stored attribute subpacket, in order', where=ba.where,
+                  expected='EACH(sp in self.<container>.values(); sp.__bytearray__())', found=t)
+        if m:
+            coll = m.group(1)
+    # ... and that is the container the item store fills for an attribute subpacket
+    if coll is not None:
+        rep.saw(fn=si)
+        for s in Interp(prog, Scenario(args={si.params[1]: Const('Image'), si.params[2]: Sym('<sp>', nonnull=True)},
+                                       inline=lambda f: f.cls is not None and f.name.startswith('_') and not f.name.startswith('__'))).run(si):
+            if s.raised is not None:
+                continue
+            tgt = [p_ for p_, v, l, val in s.stores if v == '<sp>']
+            rep.check(len(tgt) == 1 and tgt[0].startswith('%s.%s[' % (si.params[0], coll)), 'C01.8', 'SubPackets.__setitem__',
+                      'attribute subpacket stored in %s' % tgt, 'the subpacket must be filed in the container the serialiser walks',
+                      where=si.where, expected='%s.%s[...]' % (si.params[0], coll), found=tgt)
